@@ -121,7 +121,8 @@ def canon_model(m):
     return res, ["c" if e == "c" else e for e in tr]
 
 
-CFG_ARGS = [None, [], [20], (21,), {15}, "abc", 7, [int], [99], [20, int], [1], [20, 21]]
+# every content (valid and invalid) in each of the three accepted spellings: list, tuple, set
+CFG_ARGS = [None, "abc", 7] + [sp(x) for x in ([], [20], [21], [15], [int], [99], [20, int], [1], [20, 21]) for sp in (list, tuple, set)]
 
 
 def cfg_impl(att, rf, dnr):
@@ -177,8 +178,8 @@ def correspondence(ctx):
             "rule": "extracted model vs RetryingClient: attempts 1..3 x ALL outcome sequences over {ok, MemcacheError, "
                     "MemcacheClientError, MemcacheUnknownCommandError, OSError, KeyboardInterrupt} x all disjoint pairs of "
                     "subsets (size <= 2) of the four Exception classes for retry_for/do_not_retry_for (tuple/list/set "
-                    "spellings rotated); random attempts 4..9; 576 constructor configurations; call log and patched sleep log "
-                    "compared; non-trivial = at least one failing invocation",
+                    "spellings rotated); random attempts 4..9; %d constructor configurations (each valid and invalid content as list, tuple and set); call log and patched sleep log "
+                    "compared; non-trivial = at least one failing invocation" % ncfg,
             "samples": [{"case": repr(c), "model": repr(canon_model(m))} for c, m in list(zip(cases, model))[5000:5003]],
             "distribution": {"exhaustive_cases": sum(1 for c in cases if c[0] <= 3), "random_cases": sum(1 for c in cases if c[0] > 3),
                              "constructor_cases": ncfg},
